@@ -1,11 +1,12 @@
 """C08 - reaction quantities obey Hess's law, reversal symmetry and detailed balance."""
+import ast
 from fractions import Fraction as Fr
 
 from ..nf import Rat, C
 from ..source import Unsupported, AnchorError, Module
-from ..xlate import Interp, Obj, ListV, DictV, Raised, FuncRef
+from ..xlate import Interp, Obj, ListV, DictV, Raised, FuncRef, Frame, Elem, _RaisedExc
 from .common import same, show, sub, opaque_obj
-from .rxnfix import (reaction, state_sum, get_public, set_public, species, make_reaction, SPECIES_METHODS,
+from .rxnfix import (reaction, state_sum, get_public, species, make_reaction, SPECIES_METHODS,
                      SPECIES_PARAMS)
 
 CLASSES = (('Reaction', 'pmutt.reaction.Reaction'),
@@ -46,6 +47,116 @@ def accept_kwargs(I, repo, sp):
     """turn the model species ``sp`` into one whose getters are ``(T, **kwargs)`` functions"""
     for m in SPECIES_METHODS:
         sp.attrs[m] = FuncRef(_KW_MODULE, _KW_GETTERS[m], None, None, closure={'_record': _Record(sp, m)})
+    return sp
+
+
+
+def call(I, obj, name, args, kwargs):
+    """``obj.name(*args, **kwargs)`` as a user writes it: the attribute is read through the object (a def of the class
+    or of a base class, a function the class body binds to the name, the closure a factory returned for it) and what
+    it evaluates to is called.  An exception the call raises is its value (``Raised``)."""
+    fr = Frame(I, obj.ci.module, {}, None, None)
+    try:
+        return fr.apply(fr.obj_attr(obj, name), list(args), dict(kwargs))
+    except _RaisedExc as r:
+        return r.raised
+
+
+def assign(I, obj, attr, value):
+    """``obj.attr = value`` as a user writes it - the interpreter's own attribute store: the setter of a property,
+    whatever else the class does when one of its attributes is assigned"""
+    fr = Frame(I, obj.ci.module, {'obj': obj}, None, None)
+    try:
+        fr.assign(ast.parse('obj.%s' % attr, mode='eval').body, value)
+    except _RaisedExc as r:
+        raise Unsupported('%s.%s = ... raised %s for the model reaction' % (obj.name, attr, r.raised.exc))
+
+
+def where(repo, ci, name, missing_ok=False):
+    """(owner class, node) at which a finding about the public member ``name`` of ``ci`` is reported: its def; when
+    the class binds the name to a value made in another way (the closure a factory returns, ``name = make(...)`` in
+    the class body - the interpreter calls whatever the class attribute evaluates to) the expression that makes it.
+    The rule needs no more of it than a file and a line."""
+    got = repo.find_method(ci, name, missing_ok=True)
+    if got is not None:
+        return got[0], got[1]
+    for k in ci.mro:
+        if name in k.class_attrs:
+            repo.consulted.add(k.module)
+            return k, k.class_attrs[name]
+    if missing_ok:
+        return None
+    raise AnchorError('member %s not found in MRO of %s' % (name, ci.qual))
+
+
+COEFF_PREFIXES = ('nu_', 'nu<', 'mu_', 'la_', 'ka_')     # the names the fixtures give to stoichiometric coefficients
+
+
+class GenericCoefficients:
+    """Ordering oracle of the symbolic reactions.  A stoichiometric coefficient of a fixture is a generic number of the
+    quantifier's range (0.25-4, fractional included): a test ``coeff == c`` / ``coeff != c`` against a number the
+    program writes is answered "different" - which is what it is for all coefficients but one - and ``c`` is
+    remembered: the laws are then decided once more on reactions in which coefficients *are* ``c`` (step 10), so both
+    branches of the case split meet the reference.  Everything else stays undecided (exit 2)."""
+
+    def __init__(self):
+        self.special = set()        # the numbers a coefficient was compared with
+        self.done = set()           # ... that have had their instance
+
+    @staticmethod
+    def coefficient(r):
+        ats = r.atoms() if isinstance(r, Rat) else ()
+        if len(ats) != 1:
+            return False
+        a, = ats
+        return a.startswith(COEFF_PREFIXES) and r.eq(Rat.atom(a))
+
+    def __call__(self, a, op, b):
+        if op not in ('==', '!='):
+            return None
+        for x, y in ((a, b), (b, a)):
+            if self.coefficient(x) and isinstance(y, Rat) and (y.is_const() or y.iszero()):
+                self.special.add(Fr(0) if y.iszero() else Fr(y.const_value()))
+                return op == '!='
+        return None
+
+
+# exp in doubles: above EXP_MAX the result is inf, below EXP_MIN it is 0.0 - the value is lost either way
+EXP_MAX, EXP_MIN = Fr(70978, 100), Fr(-74513, 100)
+
+
+def watch_exp(I):
+    """the concrete reactions know the number every ``exp`` is applied to: the ones outside the range of doubles are
+    recorded as (argument, module, node)"""
+    seen = []
+    for key in ('numpy.exp', 'math.exp'):
+        base = I.native.get(key)
+        if base is None:
+            continue
+
+        def h(I_, fr, args, kwargs, n, base=base):
+            v = args[0] if args else kwargs.get('x')
+            if isinstance(v, Rat) and (v.is_const() or v.iszero()):
+                x = Fr(0) if v.iszero() else Fr(v.const_value())
+                if x > EXP_MAX or x < EXP_MIN:
+                    seen.append((x, getattr(fr, 'module', None), n))
+            return base(I_, fr, args, kwargs, n)
+        I.native[key] = h
+    return seen
+
+
+def vectorised(sp):
+    """the getters of the model species ``sp`` evaluate arrays element by element, as the empirical classes do: given
+    a vector of unknown length for a condition, the value is the vector whose generic element is the species' value at
+    the generic element of the condition"""
+    for m in SPECIES_METHODS:
+        def h(I_, obj, args, kwargs, base=sp.opaque_methods[m]):
+            if args:
+                raise Unsupported('model species %s called with positional arguments' % obj.name)
+            if any(isinstance(v, Elem) for v in kwargs.values()):
+                return Elem(base(I_, obj, [], {k: (v.r if isinstance(v, Elem) else v) for k, v in kwargs.items()}))
+            return base(I_, obj, [], kwargs)
+        sp.opaque_methods[m] = h
     return sp
 
 
@@ -128,16 +239,16 @@ def as_kwargs(order, shared, blocks):
     return out
 
 
-def named(run, repo, cname, qual, ci):
+def named(run, repo, cname, qual, ci, oracle=None):
     """steps 6-8: a reaction whose species have related names, surface phases and a catalyst site"""
-    I = Interp(repo)
+    I = Interp(repo, order=oracle)
     D = I.D
     T, P = D.sym('T'), D.sym('P')
     fx = named_reaction(I, repo, qual)
     rxn, sp, nu, sides = fx
     kw = {'T': T, 'P': P}
     n = 0
-    owner, fn = repo.find_method(ci, 'get_state_quantity')
+    owner, fn = where(repo, ci, 'get_state_quantity')
     # 6. Hess's law does not depend on what the species are: surface species, a site, the bulk species of the site
     for X in QUANT:
         m = 'get_' + X
@@ -146,7 +257,7 @@ def named(run, repo, cname, qual, ci):
         # (every change enters two states; the state getters themselves for one quantity)
         for st, which in ((('reactants', 'reactants'), ('products', 'products'), ('TS', 'transition_state'))
                           if X == 'HoRT' else ()):
-            got = I.call_method(rxn, 'get_%s_state' % X, [], dict(kw, state=st))
+            got = call(I, rxn, 'get_%s_state' % X, [], dict(kw, state=st))
             kwe = kw
             want = routed_state(I, fx, which, m, kwe, {})
             run.check(same(got, want), 'REF.state', '%s.get_%s_state' % (cname, X), 'surface species state:' + st,
@@ -155,14 +266,14 @@ def named(run, repo, cname, qual, ci):
                       owner.module, fn)
             n += 1
         for rev, act in ((False, False), (True, True)):
-            got = I.call_method(rxn, 'get_delta_' + X, [], dict(kw, rev=rev, act=act))
+            got = call(I, rxn, 'get_delta_' + X, [], dict(kw, rev=rev, act=act))
             want = routed_delta(I, fx, m, kw, {}, rev, act)
             run.check(same(got, want), 'REF.delta', '%s.get_delta_%s' % (cname, X),
                       'surface species rev=%s act=%s' % (rev, act),
                       'with surface species and the bulk species of their catalyst site the change is not final '
                       'minus initial over all species: %s' % show(got, 200), owner.module, fn)
             n += 1
-    Kf = I.call_method(rxn, 'get_Keq', [], dict(kw))
+    Kf = call(I, rxn, 'get_Keq', [], dict(kw))
     run.check(same(Kf, D.exp(-routed_delta(I, fx, 'get_GoRT', kw, {}))), 'REF.Keq', cname + '.get_Keq',
               'surface species K=exp(-dG/RT)', 'equilibrium constant is %s, not exp(-delta G/RT) over all species'
               % show(Kf, 200), owner.module, fn)
@@ -178,21 +289,21 @@ def named(run, repo, cname, qual, ci):
         order = ['T', 'P'] + [b + '_kwargs' for b in blocks]
         for st, which in ((('reactants', 'reactants'), ('products', 'products')) if blocks is every else ()) \
                 + (('TS', 'transition_state'),):
-            got = I.call_method(rxn, 'get_HoRT_state', [], dict(as_kwargs(order, kw, blocks), state=st))
+            got = call(I, rxn, 'get_HoRT_state', [], dict(as_kwargs(order, kw, blocks), state=st))
             want = routed_state(I, fx, which, 'get_HoRT', kw, blocks)
             run.check(same(got, want), 'DATAFLOW.species-kwargs', cname + '.get_state_quantity',
                       'related names: %s, state:%s' % (label, st),
                       'species H2, H2O, H2O(S), h2o, H2O2(S), H2O_TS, PT(S), PT(B): conditions addressed to one species by '
                       'its name must reach that species and no other: %s' % show(got, 300), owner.module, fn)
             n += 1
-        got = I.call_method(rxn, 'get_delta_GoRT', [], as_kwargs(order, kw, blocks))
+        got = call(I, rxn, 'get_delta_GoRT', [], as_kwargs(order, kw, blocks))
         want = routed_delta(I, fx, 'get_GoRT', kw, blocks)
         run.check(same(got, want), 'DATAFLOW.species-kwargs', cname + '.get_delta_GoRT', 'related names: ' + label,
                   'conditions addressed to one species by its name must reach that species and no other: %s'
                   % show(got, 300), owner.module, fn)
         n += 1
         if blocks is every:
-            got = I.call_method(rxn, 'get_Keq', [], as_kwargs(order, kw, blocks))
+            got = call(I, rxn, 'get_Keq', [], as_kwargs(order, kw, blocks))
             run.check(same(got, D.exp(-want)), 'DATAFLOW.species-kwargs', cname + '.get_Keq',
                       'related names: ' + label,
                       'conditions addressed to one species by its name must reach that species and no other: %s'
@@ -207,15 +318,15 @@ def named(run, repo, cname, qual, ci):
         key = 'keyword order: ' + ', '.join(order)
         why = ('written as (%s) the block T=T2, P=P2 addressed to H2O must win over the shared T, P for H2O and '
                'for nobody else: %%s' % ', '.join(order))
-        got = I.call_method(rxn, 'get_HoRT_state', [], dict(as_kwargs(order, kw, blocks), state='reactants'))
+        got = call(I, rxn, 'get_HoRT_state', [], dict(as_kwargs(order, kw, blocks), state='reactants'))
         run.check(same(got, wantH), 'DATAFLOW.species-kwargs', cname + '.get_state_quantity', key,
                   why % show(got, 300), owner.module, fn)
-        got = I.call_method(rxn, 'get_delta_GoRT', [], as_kwargs(order, kw, blocks))
+        got = call(I, rxn, 'get_delta_GoRT', [], as_kwargs(order, kw, blocks))
         run.check(same(got, wantG), 'DATAFLOW.species-kwargs', cname + '.get_delta_GoRT', key,
                   why % show(got, 300), owner.module, fn)
         n += 2
         if order[0] != 'T':
-            got = I.call_method(rxn, 'get_Keq', [], as_kwargs(order, kw, blocks))
+            got = call(I, rxn, 'get_Keq', [], as_kwargs(order, kw, blocks))
             run.check(same(got, D.exp(-wantG)), 'DATAFLOW.species-kwargs', cname + '.get_Keq', key,
                       why % show(got, 300), owner.module, fn)
             n += 1
@@ -223,7 +334,7 @@ def named(run, repo, cname, qual, ci):
     blocks = {'H2O': {'P': D.sym('P2')}}
     wantS = routed_delta(I, fx, 'get_SoR', kw, blocks) * D.sym('kb') * D.sym('Na')
     for order in (('H2O_kwargs', 'T', 'P'), ('T', 'H2O_kwargs', 'P'), ('T', 'P', 'H2O_kwargs')):
-        got = I.call_method(rxn, 'get_delta_S', [], dict(as_kwargs(order, kw, blocks), units='J/mol/K'))
+        got = call(I, rxn, 'get_delta_S', [], dict(as_kwargs(order, kw, blocks), units='J/mol/K'))
         run.check(same(got, wantS), 'DATAFLOW.species-kwargs', cname + '.get_delta_S',
                   'keyword order: ' + ', '.join(order),
                   'written as (%s) the block P=P2 addressed to H2O must win over the shared P for H2O and for '
@@ -245,10 +356,10 @@ def positional(run, repo, cname, ci, I, rxn, kw):
     n = 0
 
     def one(rule, mname, args, kwargs, want, key, why):
-        owner, fn = repo.find_method(ci, mname)
+        owner, fn = where(repo, ci, mname)
         if not every and owner is not ci:
             return 0
-        got = I.call_method(rxn, mname, list(args), dict(kwargs))
+        got = call(I, rxn, mname, list(args), dict(kwargs))
         run.check(same(got, want), rule, '%s.%s' % (cname, mname), 'by position: ' + key,
                   '%s: %s' % (why, show(got, 200)), owner.module, fn)
         return 1
@@ -279,7 +390,7 @@ def positional(run, repo, cname, ci, I, rxn, kw):
         lead, cond = ([units, T], rest) if energy else ([units], kw)
         sig_ = '(units, T' if energy else '(units'
         m = 'get_' + Xn
-        if repo.find_method(ci, 'get_%s_state' % Xd, missing_ok=True) is not None:
+        if where(repo, ci, 'get_%s_state' % Xd, missing_ok=True) is not None:
             zpe = [True] if Xd == 'E' else []
             kwe = dict(kw, include_ZPE=True) if Xd == 'E' else kw
             n += one('REF.state', 'get_%s_state' % Xd, ['products'] + [units] + ([T] if energy else []) + zpe, cond,
@@ -287,14 +398,14 @@ def positional(run, repo, cname, ci, I, rxn, kw):
                      '(state, %s%s)' % (sig_[1:], ', include_ZPE' if zpe else ''),
                      'called with the state, the unit%s%s by position the value in %s is not the sum over the '
                      'products' % (', the temperature' if energy else '', ', include_ZPE=True' if zpe else '', units))
-        if repo.find_method(ci, 'get_delta_' + Xd, missing_ok=True) is not None:
+        if where(repo, ci, 'get_delta_' + Xd, missing_ok=True) is not None:
             n += one('REF.delta', 'get_delta_' + Xd, lead + [True, False], cond,
                      I.binop('*', expected_delta(I, rxn, m, kw, True, False), fac),
                      sig_ + ', rev, act) = (..., True, False)',
                      'called as get_delta_%s%s, True, False, ...) the change in %s is not reactants minus products'
                      % (Xd, sig_, units))
         if Xd != 'E' and (cname, Xn) not in CLAMPED and \
-                repo.find_method(ci, 'get_%s_act' % Xd, missing_ok=True) is not None:
+                where(repo, ci, 'get_%s_act' % Xd, missing_ok=True) is not None:
             n += one('REF.act', 'get_%s_act' % Xd, lead + [True], cond,
                      I.binop('*', expected_delta(I, rxn, m, kw, True, True), fac), sig_ + ', rev) = (..., True)',
                      'called as get_%s_act%s, True, ...) - the reverse direction - the activation quantity in %s is '
@@ -318,9 +429,9 @@ def laws(run, repo, cname, ci, I, rxn, sides, kw, tag, what, brief=False):
         return b / a if m == 'get_q' else b - a
 
     for X in (('HoRT',) if brief else ('HoRT', 'q')):
-        owner, fn = repo.find_method(ci, 'get_%s_state' % X)
+        owner, fn = where(repo, ci, 'get_%s_state' % X)
         for label, which in (('reactants', 'reactants'), ('products', 'products'), ('TS', 'transition_state')):
-            got = I.call_method(rxn, 'get_%s_state' % X, [], dict(kw, state=label))
+            got = call(I, rxn, 'get_%s_state' % X, [], dict(kw, state=label))
             run.check(same(got, st(which, 'get_' + X)), 'REF.state', '%s.get_%s_state' % (cname, X),
                       '%s state:%s' % (tag, label),
                       '%s the state quantity of the %s is not the stoichiometry-weighted %s over the species and '
@@ -329,17 +440,17 @@ def laws(run, repo, cname, ci, I, rxn, sides, kw, tag, what, brief=False):
             n += 1
     for X, combos in ((('GoRT', four[::3]),) if brief else
                       (('GoRT', four), ('SoR', four[::3]), ('q', four[:1]))):
-        owner, fn = repo.find_method(ci, 'get_delta_' + X)
+        owner, fn = where(repo, ci, 'get_delta_' + X)
         for rev, act in combos:
-            got = I.call_method(rxn, 'get_delta_' + X, [], dict(kw, rev=rev, act=act))
+            got = call(I, rxn, 'get_delta_' + X, [], dict(kw, rev=rev, act=act))
             run.check(same(got, dl('get_' + X, rev, act)), 'REF.delta', '%s.get_delta_%s' % (cname, X),
                       '%s rev=%s act=%s' % (tag, rev, act),
                       '%s the change is not final minus initial over the species and coefficients the reaction has '
                       'at the time of the call: %s' % (what, show(got, 200)), owner.module, fn)
             n += 1
-    owner, fn = repo.find_method(ci, 'get_Keq')
+    owner, fn = where(repo, ci, 'get_Keq')
     for rev, act in (four[:1] if brief else four[::3]):
-        got = I.call_method(rxn, 'get_Keq', [], dict(kw, rev=rev, act=act))
+        got = call(I, rxn, 'get_Keq', [], dict(kw, rev=rev, act=act))
         run.check(same(got, D.exp(-dl('get_GoRT', rev, act))), 'REF.Keq', cname + '.get_Keq',
                   '%s rev=%s act=%s' % (tag, rev, act),
                   '%s the equilibrium constant is not exp(-delta G/RT) of the reaction as it is at the time of the '
@@ -361,7 +472,7 @@ def reassigned(run, repo, cname, qual, ci, I, rxn, rs, ps, ts):
     mu = {w: [D.sym('mu_%s%d' % (w[0], i)) for i in range(k)] for w, k in
           (('reactants', len(rs)), ('products', len(ps)), ('transition_state', len(ts)))}
     for w in mu:
-        set_public(I, rxn, w + '_stoich', ListV(list(mu[w])))
+        assign(I, rxn, w + '_stoich', ListV(list(mu[w])))
     sides = {'reactants': (rs, mu['reactants']), 'products': (ps, mu['products']),
              'transition_state': (ts, mu['transition_state'])}
     n += laws(run, repo, cname, ci, I, rxn, sides, kw2, 'new coefficients',
@@ -372,8 +483,8 @@ def reassigned(run, repo, cname, qual, ci, I, rxn, rs, ps, ts):
              'products': ([rs[0], new[1], ps[1]], [D.sym('la_p%d' % i) for i in range(3)]),
              'transition_state': ([new[2], ts[0]], [D.sym('la_t%d' % i) for i in range(2)])}
     for w, (sp_, nu_) in sides.items():
-        set_public(I, rxn, w, ListV(list(sp_)))
-        set_public(I, rxn, w + '_stoich', ListV(list(nu_)))
+        assign(I, rxn, w, ListV(list(sp_)))
+        assign(I, rxn, w + '_stoich', ListV(list(nu_)))
     kw = {'T': D.sym('T'), 'P': D.sym('P')}
     what = 'after all six sides were assigned new lists (1 reactant, 3 products, 2 transition-state species)'
     n += laws(run, repo, cname, ci, I, rxn, sides, kw, 'new species', what, brief)
@@ -436,10 +547,11 @@ def numeric(run, repo, cname, qual, ci):
     full = run.tier == 'thorough'
     all_states = (('reactants', 'reactants'), ('products', 'products'), ('TS', 'transition_state'))
     combos = tuple((r_, a_) for r_ in (False, True) for a_ in (False, True)) if full else ((False, False), (True, True))
-    own = tuple(X for X in QUANT[1:] if full or repo.find_method(ci, 'get_delta_' + X)[0] is ci)
+    own = tuple(X for X in QUANT[1:] if full or where(repo, ci, 'get_delta_' + X)[0] is ci)
     for tag, sides, value, quants in (('N1', N1, n1_value, QUANT), ('N2', N2, n2_value, own)):
         I = Interp(repo)
         D = I.D
+        lost = watch_exp(I)
         names = []
         for side in sides.values():
             names += [nm for nm, _ in side if nm not in names]
@@ -469,18 +581,18 @@ def numeric(run, repo, cname, qual, ci):
 
         for X in quants:
             m = 'get_' + X
-            owner, fn = repo.find_method(ci, 'get_%s_state' % X)
+            owner, fn = where(repo, ci, 'get_%s_state' % X)
             for st, which in (all_states if full else (all_states[QUANT.index(X) % 3],)):
-                got = I.call_method(rxn, 'get_%s_state' % X, [], dict(kw, state=st))
+                got = call(I, rxn, 'get_%s_state' % X, [], dict(kw, state=st))
                 run.check(same(got, C(state(which, m))), 'REF.state', '%s.get_%s_state' % (cname, X),
                           '%s numbers state:%s' % (tag, st),
                           'for %s with the species values %s the %s have %s = %s, the getter returns %s'
                           % (text, {nm: str(value(nm, m)) for nm, _ in sides[which]}, st, X, state(which, m),
                              show(got, 120)), owner.module, fn)
                 n += 1
-            owner, fn = repo.find_method(ci, 'get_delta_' + X)
+            owner, fn = where(repo, ci, 'get_delta_' + X)
             for rev, act in combos:
-                got = I.call_method(rxn, 'get_delta_' + X, [], dict(kw, rev=rev, act=act))
+                got = call(I, rxn, 'get_delta_' + X, [], dict(kw, rev=rev, act=act))
                 run.check(same(got, C(delta(m, rev, act))), 'REF.delta', '%s.get_delta_%s' % (cname, X),
                           '%s numbers rev=%s act=%s' % (tag, rev, act),
                           'for %s the final and the initial state have %s = %s and %s (a change that is small '
@@ -489,16 +601,108 @@ def numeric(run, repo, cname, qual, ci):
                              state('products' if rev else 'reactants', m), delta(m, rev, act), show(got, 120)),
                           owner.module, fn)
                 n += 1
-        owner, fn = repo.find_method(ci, 'get_Keq')
+        owner, fn = where(repo, ci, 'get_Keq')
         for rev, act in combos:
-            got = I.call_method(rxn, 'get_Keq', [], dict(kw, rev=rev, act=act))
+            k0 = len(lost)
+            got = call(I, rxn, 'get_Keq', [], dict(kw, rev=rev, act=act))
             dG = delta('get_GoRT', rev, act)
             run.check(same(got, D.exp(C(-dG))), 'REF.Keq', cname + '.get_Keq',
                       '%s numbers rev=%s act=%s' % (tag, rev, act),
                       'for %s delta G/RT = %s, the equilibrium constant is %s, not exp(-delta G/RT)'
                       % (text, dG, show(got, 120)), owner.module, fn)
+            # the constant is exp of a number of size 1e-2 ... 1e2; the states it is the change of have G/RT of size
+            # 1e4: an exponential of a *state* value is inf (or 0.0) in doubles and the constant nan
+            bad = lost[k0:]
+            run.check(not bad, 'REF.Keq', cname + '.get_Keq',
+                      '%s numbers rev=%s act=%s: exp within the range of doubles' % (tag, rev, act),
+                      'for %s (G/RT of the states %s and %s, delta G/RT = %s) the equilibrium constant exp(%s) is an '
+                      'ordinary number, but on the way to it exp is applied to %s: in doubles that is %s and the '
+                      'constant is lost (nan, inf or 0)'
+                      % (text, float(state('products' if rev else 'reactants', 'get_GoRT')),
+                         float(state('transition_state' if act else ('reactants' if rev else 'products'), 'get_GoRT')),
+                         float(dG), float(-dG), ', '.join(str(float(b_[0])) for b_ in bad[:3]),
+                         ' / '.join('inf' if b_[0] > 0 else '0.0' for b_ in bad[:3])),
+                      bad[0][1] if bad and bad[0][1] is not None else owner.module,
+                      bad[0][2] if bad and bad[0][2] is not None else fn)
             n += 1
     return n
+
+
+def arrays(run, repo, cname, qual, ci, oracle=None):
+    """step 11: several temperatures at once.  The empirical species classes evaluate an array of temperatures element
+    by element and the reaction getters hand the array through: the laws hold at each temperature, i.e. the value for
+    a vector of temperatures (of unknown length) is the vector of the values - not a total over it."""
+    I = Interp(repo, order=oracle)
+    D = I.D
+    rxn, rs, ps, ts = reaction(I, repo, qual, name='rxn_arr')
+    for sp in rs + ps + ts:
+        vectorised(sp)
+    accept_kwargs(I, repo, rs[1])
+    accept_kwargs(I, repo, ps[0])
+    Tg, P = D.sym('T'), D.sym('P')
+    kw = {'T': Elem(Tg), 'P': P}
+    kw0 = {'T': Tg, 'P': P}                  # the generic element
+    n = 0
+    what = 'with T an array of temperatures the %s must be the array of the values at each temperature, it is %s'
+
+    def one(rule, mname, kwargs, want, key):
+        owner, fn = where(repo, ci, mname)
+        got = call(I, rxn, mname, [], dict(kw, **kwargs))
+        run.check(same(got, Elem(want)), rule, '%s.%s' % (cname, mname), 'T array ' + key,
+                  what % (mname, show(got, 200)), owner.module, fn)
+        return 1
+
+    for st, which in (('reactants', 'reactants'), ('products', 'products'), ('TS', 'transition_state')):
+        n += one('BRANCH-TWIN.array', 'get_HoRT_state', {'state': st}, expected_state(I, rxn, which, 'get_HoRT', kw0),
+                 'state:' + st)
+    for X, combos in (('GoRT', ((False, False), (True, True))), ('SoR', ((False, False),))):
+        for rev, act in combos:
+            n += one('BRANCH-TWIN.array', 'get_delta_' + X, {'rev': rev, 'act': act},
+                     expected_delta(I, rxn, 'get_' + X, kw0, rev, act), 'rev=%s act=%s' % (rev, act))
+    n += one('BRANCH-TWIN.array', 'get_q_state', {'state': 'products'}, expected_state(I, rxn, 'products', 'get_q', kw0),
+             'state:products')
+    n += one('BRANCH-TWIN.array', 'get_delta_q', {}, expected_delta(I, rxn, 'get_q', kw0, False, False),
+             'rev=False act=False')
+    for rev, act in ((False, False), (True, True)):
+        n += one('BRANCH-TWIN.array', 'get_Keq', {'rev': rev, 'act': act},
+                 D.exp(-expected_delta(I, rxn, 'get_GoRT', kw0, rev, act)), 'rev=%s act=%s' % (rev, act))
+    Ru = D.sym('kb') * I.unit('kJ/mol') * D.sym('Na')
+    n += one('BRANCH-TWIN.array', 'get_delta_H', {'units': 'kJ/mol'},
+             expected_delta(I, rxn, 'get_HoRT', kw0, False, False) * Ru * Tg, 'units=kJ/mol rev=False act=False')
+    n += one('BRANCH-TWIN.array', 'get_S_state', {'units': 'kJ/mol/K', 'state': 'reactants'},
+             expected_state(I, rxn, 'reactants', 'get_SoR', kw0) * Ru, 'units=kJ/mol/K state:reactants')
+    return n
+
+
+def special_coefficients(run, repo, cname, qual, ci, oracle):
+    """step 10: the numbers the program compared a coefficient with (``if coeff == 1``) are coefficients like any
+    other: for each of them inside the quantifier's range two reactions r0 + r1 = [t0] = p0 + p1 in which some
+    coefficients are that number and the others stay generic (both branches are taken within one sum), decided
+    against the same sums.  Nothing to do for a program that does not look at the coefficients."""
+    n = 0
+    while True:
+        todo = sorted(c for c in oracle.special if c not in oracle.done)
+        if not todo:
+            return n
+        for c in todo:
+            oracle.done.add(c)
+            if not Fr(1, 4) <= c <= 4:
+                continue                    # no reaction of the quantifier has this coefficient
+            for tag, fixed in (('r0, p1, t0', ('r0', 'p1', 't0')), ('r1, p0', ('r1', 'p0'))):
+                I = Interp(repo, order=oracle)
+                D = I.D
+                sp = {nm: species(I, nm) for nm in ('r0', 'r1', 'p0', 'p1', 't0')}
+                accept_kwargs(I, repo, sp['r1'])
+                accept_kwargs(I, repo, sp['p0'])
+                nu = {nm: (C(c) if nm in fixed else D.sym('nu_' + nm)) for nm in sp}
+                sides = {w: ([sp[x] for x in nms], [nu[x] for x in nms]) for w, nms in
+                         (('reactants', ('r0', 'r1')), ('products', ('p0', 'p1')), ('transition_state', ('t0',)))}
+                rxn = make_reaction(I, repo, qual, *[x for w in ('reactants', 'products', 'transition_state')
+                                                     for x in sides[w]], name='rxn_special')
+                n += laws(run, repo, cname, ci, I, rxn, sides, {'T': D.sym('T'), 'P': D.sym('P')},
+                          'coefficient %s of %s' % (c, tag),
+                          'with the coefficient %s (a number the evaluation tests for) for %s and generic '
+                          'coefficients for the other species' % (c, tag))
 
 
 def check(run, repo):
@@ -537,9 +741,11 @@ def check(run, repo):
     #    undecidable (a comparison of two atoms)
     for cname, qual in CLASSES:
         n += numeric(run, repo, cname, qual, repo.cls(qual))
+    oracles = {}
     for cname, qual in CLASSES:
         ci = repo.cls(qual)
-        I = Interp(repo)
+        oracle = GenericCoefficients()
+        I = Interp(repo, order=oracle)
         D = I.D
         T, P, P2 = D.sym('T'), D.sym('P'), D.sym('P2')
         rxn, rs, ps, ts = reaction(I, repo, qual)
@@ -550,10 +756,10 @@ def check(run, repo):
         for X in QUANT:
             m = 'get_' + X
             # 1. state getters
-            owner, fn = repo.find_method(ci, 'get_%s_state' % X)
+            owner, fn = where(repo, ci, 'get_%s_state' % X)
             run.fn('%s.get_%s_state' % (owner.qual, X))
             for st, which in STATES:
-                got = I.call_method(rxn, 'get_%s_state' % X, [], dict(kw, state=st))
+                got = call(I, rxn, 'get_%s_state' % X, [], dict(kw, state=st))
                 # get_EoRT_state has include_ZPE=False as an explicit default which it forwards
                 kwe = dict(kw, include_ZPE=False) if X == 'EoRT' else kw
                 want = expected_state(I, rxn, {'r': 'reactants', 'p': 'products', 't': 'transition_state'}[which],
@@ -564,12 +770,12 @@ def check(run, repo):
                           sample='%s.get_%s_state(%r) == sum nu_i x_i' % (cname, X, st) if st == 'TS' else None)
                 n += 1
             # 2. delta getters
-            owner, fn = repo.find_method(ci, 'get_delta_' + X)
+            owner, fn = where(repo, ci, 'get_delta_' + X)
             run.fn('%s.get_delta_%s' % (owner.qual, X))
             d = {}
             for rev in (False, True):
                 for act in (False, True):
-                    got = I.call_method(rxn, 'get_delta_' + X, [], dict(kw, rev=rev, act=act))
+                    got = call(I, rxn, 'get_delta_' + X, [], dict(kw, rev=rev, act=act))
                     d[(rev, act)] = got
                     want = expected_delta(I, rxn, m, kw, rev, act)
                     run.check(same(got, want), 'REF.delta', '%s.get_delta_%s' % (cname, X),
@@ -580,7 +786,7 @@ def check(run, repo):
             # the flags as a caller may hold them after a comparison or a table lookup (numpy.bool_, 0/1): truthy
             # values that are not the singleton True select the same states
             for rev, act in ((0, 1), (1, 1), (1, 0)):
-                got = I.call_method(rxn, 'get_delta_' + X, [], dict(kw, rev=C(rev), act=C(act)))
+                got = call(I, rxn, 'get_delta_' + X, [], dict(kw, rev=C(rev), act=C(act)))
                 run.check(same(got, d[(bool(rev), bool(act))]), 'REF.delta', '%s.get_delta_%s' % (cname, X),
                           'rev=%s act=%s (flags given as 0/1)' % (rev, act),
                           'with truthy flags that are not the singleton True the change is %s, with rev=%s act=%s it '
@@ -602,10 +808,10 @@ def check(run, repo):
             n += 2
             # 3. *_act == delta(act=True) for the unclamped getters
             if X != 'EoRT' and (cname, X) not in CLAMPED:
-                owner, fn = repo.find_method(ci, 'get_%s_act' % X)
+                owner, fn = where(repo, ci, 'get_%s_act' % X)
                 run.fn('%s.get_%s_act' % (owner.qual, X))
                 for rev in (False, True):
-                    got = I.call_method(rxn, 'get_%s_act' % X, [], dict(kw, rev=rev))
+                    got = call(I, rxn, 'get_%s_act' % X, [], dict(kw, rev=rev))
                     kw2 = dict(kw)
                     if X == 'q':
                         kw2['include_ZPE'] = False
@@ -622,9 +828,9 @@ def check(run, repo):
         unit_list = ('J/mol', 'kJ/mol') + (('kcal/mol', 'eV') if run.tier == 'thorough' else ())
         for (Xd, Xn, energy), ubase in (((a_, b_, c_), u_) for a_, b_, c_ in UNIT_GETTERS for u_ in unit_list):
             mname = 'get_%s_state' % Xd
-            if repo.find_method(ci, mname, missing_ok=True) is None:
+            if where(repo, ci, mname, missing_ok=True) is None:
                 continue
-            owner, fn = repo.find_method(ci, mname)
+            owner, fn = where(repo, ci, mname)
             units = ubase if energy else ubase + '/K'
             # R in the unit asked for: kb (per molecule) times the unit factor, times Avogadro for molar units
             Ru = D.sym('kb') * I.unit(ubase) * (D.sym('Na') if ubase.endswith('/mol') else C(1))
@@ -633,7 +839,7 @@ def check(run, repo):
             for zpe in ((False, True) if Xd == 'E' else (None,)):
                 opt = {} if zpe is None else {'include_ZPE': zpe}
                 for st, which in (('reactants', 'reactants'), ('TS', 'transition_state')):
-                    got = I.call_method(rxn, mname, [], dict(kw, state=st, units=units, **opt))
+                    got = call(I, rxn, mname, [], dict(kw, state=st, units=units, **opt))
                     kwe = dict(kw, include_ZPE=bool(zpe)) if Xd == 'E' else kw
                     want = I.binop('*', expected_state(I, rxn, which, 'get_' + Xn, kwe), fac)
                     run.check(same(got, want), 'REF.state', '%s.%s' % (cname, mname),
@@ -642,11 +848,11 @@ def check(run, repo):
                               'under the same options: %s' % (units, show(got, 200)), owner.module, fn)
                     n += 1
                 dname = 'get_delta_' + Xd
-                if repo.find_method(ci, dname, missing_ok=True) is None:
+                if where(repo, ci, dname, missing_ok=True) is None:
                     continue
-                owner, fn = repo.find_method(ci, dname)
+                owner, fn = where(repo, ci, dname)
                 for rev, act in ((False, False), (True, True)):
-                    got = I.call_method(rxn, dname, [], dict(kw, rev=rev, act=act, units=units, **opt))
+                    got = call(I, rxn, dname, [], dict(kw, rev=rev, act=act, units=units, **opt))
                     kwe = dict(kw, include_ZPE=bool(zpe)) if Xd == 'E' else kw
                     want = I.binop('*', expected_delta(I, rxn, 'get_' + Xn, kwe, rev, act), fac)
                     run.check(same(got, want), 'REF.delta', '%s.%s' % (cname, dname),
@@ -657,19 +863,19 @@ def check(run, repo):
             # 3c. the activation quantity with units of the unclamped getters: transition state minus the initial
             #     state of the direction asked for, at the conditions given (T, P and a block addressed to one species)
             aname = 'get_%s_act' % Xd
-            if Xd == 'E' or (cname, Xn) in CLAMPED or repo.find_method(ci, aname, missing_ok=True) is None:
+            if Xd == 'E' or (cname, Xn) in CLAMPED or where(repo, ci, aname, missing_ok=True) is None:
                 continue
-            owner, fn = repo.find_method(ci, aname)
+            owner, fn = where(repo, ci, aname)
             run.fn('%s.%s' % (owner.qual, aname))
             for rev in (False, True):
-                got = I.call_method(rxn, aname, [], dict(kw, rev=rev, units=units))
+                got = call(I, rxn, aname, [], dict(kw, rev=rev, units=units))
                 want = I.binop('*', expected_delta(I, rxn, 'get_' + Xn, kw, rev, True), fac)
                 run.check(same(got, want), 'REF.act', '%s.%s' % (cname, aname), '%s rev=%s' % (utag, rev),
                           'activation quantity in %s at (T, P) is not transition state minus %s at (T, P): %s'
                           % (units, 'products' if rev else 'reactants', show(got, 200)), owner.module, fn)
                 n += 1
             if ubase == 'J/mol':
-                got = I.call_method(rxn, aname, [], dict(kw, units=units, r0_kwargs=DictV({'P': P2})))
+                got = call(I, rxn, aname, [], dict(kw, units=units, r0_kwargs=DictV({'P': P2})))
                 want = C(0)
                 for grp, sgn in ((ts, 1), (rs, -1)):
                     nus = get_public(I, rxn, 'transition_state_stoich' if sgn == 1 else 'reactants_stoich').items
@@ -682,10 +888,10 @@ def check(run, repo):
                           'with units: %s' % show(got, 240), owner.module, fn)
                 n += 1
         # 4. equilibrium constant
-        owner, fn = repo.find_method(ci, 'get_Keq')
+        owner, fn = where(repo, ci, 'get_Keq')
         run.fn(owner.qual + '.get_Keq')
-        Kf = I.call_method(rxn, 'get_Keq', [], dict(kw, rev=False))
-        Kr = I.call_method(rxn, 'get_Keq', [], dict(kw, rev=True))
+        Kf = call(I, rxn, 'get_Keq', [], dict(kw, rev=False))
+        Kr = call(I, rxn, 'get_Keq', [], dict(kw, rev=True))
         dG = expected_delta(I, rxn, 'get_GoRT', kw, False, False)
         run.check(same(Kf, D.exp(-dG)), 'REF.Keq', cname + '.get_Keq', 'K=exp(-dG/RT)',
                   'equilibrium constant is %s, not exp(-delta G/RT)' % show(Kf, 200), owner.module, fn,
@@ -697,19 +903,19 @@ def check(run, repo):
         # every (direction, activation) combination: the reverse activation constant is NOT the reciprocal of the
         # forward one (different initial states, same transition state)
         for rev_, act_ in ((False, True), (True, True), (True, False)):
-            Ka = I.call_method(rxn, 'get_Keq', [], dict(kw, rev=rev_, act=act_))
+            Ka = call(I, rxn, 'get_Keq', [], dict(kw, rev=rev_, act=act_))
             dGa = expected_delta(I, rxn, 'get_GoRT', kw, rev_, act_)
             run.check(same(Ka, D.exp(-dGa)), 'REF.Keq', cname + '.get_Keq', 'rev=%s act=%s' % (rev_, act_),
                       '%s equilibrium constant (rev=%s) is %s, not exp(-delta G/RT) of that direction'
                       % ('activation' if act_ else 'reaction', rev_, show(Ka, 200)), owner.module, fn)
         n += 5
         # 5. keyword routing + caller dictionaries untouched
-        owner, fn = repo.find_method(ci, 'get_state_quantity')
+        owner, fn = where(repo, ci, 'get_state_quantity')
         run.fn(owner.qual + '.get_state_quantity')
         block = DictV({'P': P2})
         foreign = DictV({'P': D.sym('P3'), 'T': D.sym('T3')})
         snap = (dict(block.d), dict(foreign.d))
-        got = I.call_method(rxn, 'get_HoRT_state', [], {'state': 'reactants', 'T': T, 'P': P,
+        got = call(I, rxn, 'get_HoRT_state', [], {'state': 'reactants', 'T': T, 'P': P,
                                                         'r0_kwargs': block, 'zz_kwargs': foreign})
         nu = get_public(I, rxn, 'reactants_stoich').items
         h0 = rs[0].opaque_methods['get_HoRT'](I, rs[0], [], {'T': T, 'P': P2})
@@ -725,7 +931,7 @@ def check(run, repo):
                   % (sorted(block.d), sorted(foreign.d)), owner.module, fn)
         for meth, extra in (('get_delta_GoRT', {}), ('get_Keq', {}), ('get_G_act', {'units': 'kJ/mol'})):
             blk = DictV({'P': P2})
-            I.call_method(rxn, meth, [], dict({'T': T, 'P': P, 'p0_kwargs': blk}, **extra))
+            call(I, rxn, meth, [], dict({'T': T, 'P': P, 'p0_kwargs': blk}, **extra))
             run.check(list(blk.d) == ['P'] and blk.d['P'] is P2, 'EFFECT.caller-dict', '%s.%s' % (cname, meth),
                       'nested blocks', 'a caller-supplied per-species dictionary was modified', owner.module, fn)
         n += 5
@@ -733,7 +939,15 @@ def check(run, repo):
         n += positional(run, repo, cname, ci, I, rxn, kw)
         # 9. sides re-assigned through the public setters; a second object
         n += reassigned(run, repo, cname, qual, ci, I, rxn, rs, ps, ts)
-        n += named(run, repo, cname, qual, ci)
+        n += named(run, repo, cname, qual, ci, oracle)
+        oracles[cname] = oracle
+    for cname, qual in CLASSES:
+        ci = repo.cls(qual)
+        # 10. the numbers a coefficient was compared with, as coefficients
+        n += special_coefficients(run, repo, cname, qual, ci, oracles[cname])
+        # 11. arrays of temperatures
+        n += arrays(run, repo, cname, qual, ci, oracles[cname])
+        n += special_coefficients(run, repo, cname, qual, ci, oracles[cname])
     run.floor('C08 instances', n, 1000)
     network(run, repo)
 
@@ -748,7 +962,7 @@ def network(run, repo):
         raise AnchorError('pmutt.reaction.network.get_state_quantity not found')
     repo.consulted.add(m)
     run.fn('pmutt.reaction.network.get_state_quantity')
-    I = Interp(repo)
+    I = Interp(repo, order=GenericCoefficients())
     D = I.D
     T, P, P2 = D.sym('T'), D.sym('P'), D.sym('P2')
     rxn, rs, ps, ts = reaction(I, repo, 'pmutt.reaction.Reaction')
@@ -860,6 +1074,37 @@ MUTANTS = [
     {'name': 'coefficients rounded to whole numbers', 'expect': ('REF.state', '_state'),
      'edits': [(R, '                state_quantity += \\\n                    _force_pass_arguments(method, **specie_kwargs)*coeff',
                 '                state_quantity += \\\n                    _force_pass_arguments(method, **specie_kwargs)*round(coeff)')]},
+    # white-box review, round 3
+    {'name': 'the terms of a state are collected in a list and totalled with np.sum: an array of temperatures is '
+             'summed away (whitebox3 A4)', 'expect': ('BRANCH-TWIN.array', '_state'),
+     'edits': [(R, "            state_quantity = 0.\n\n        for specie, coeff in zip(species, stoich):",
+                "            state_quantity = 0.\n        terms = []\n\n        for specie, coeff in zip(species, stoich):"),
+               (R, '                state_quantity += \\\n                        _force_pass_arguments(method, **specie_kwargs)*coeff' + "\n        return state_quantity",
+                "                terms.append(\n                    _force_pass_arguments(method, **specie_kwargs)*coeff)\n"
+                "        if method_name != 'get_q':\n            return np.sum(terms)\n        return state_quantity")]},
+    {'name': 'Keq as the ratio of the Boltzmann factors of the two states (whitebox3 A3)',
+     'expect': ('REF.Keq', 'get_Keq'),
+     'edits': [(R, "        return np.exp(-self.get_delta_GoRT(rev=rev, act=act, **kwargs))",
+                "        initial_state, final_state = _get_states(rev=rev, act=act)\n"
+                "        w_initial = np.exp(-self.get_GoRT_state(state=initial_state, **kwargs))\n"
+                "        w_final = np.exp(-self.get_GoRT_state(state=final_state, **kwargs))\n"
+                "        return w_final / w_initial")]},
+    {'name': 'Keq through exp(+G_initial) * exp(-G_final)', 'expect': ('REF.Keq', 'get_Keq'),
+     'edits': [(R, "        return np.exp(-self.get_delta_GoRT(rev=rev, act=act, **kwargs))",
+                "        initial_state, final_state = _get_states(rev=rev, act=act)\n"
+                "        return np.exp(self.get_GoRT_state(state=initial_state, **kwargs)) \\\n"
+                "            * np.exp(-self.get_GoRT_state(state=final_state, **kwargs))")]},
+    {'name': 'a wrong fast path for a coefficient of exactly 3', 'expect': ('REF.state', '_state'),
+     'edits': [(R, "            else:\n" + '                state_quantity += \\\n                        _force_pass_arguments(method, **specie_kwargs)*coeff',
+                "            elif coeff == 3:\n                value = _force_pass_arguments(method, **specie_kwargs)\n"
+                "                state_quantity += value + value\n"
+                "            else:\n" + '                state_quantity += \\\n                        _force_pass_arguments(method, **specie_kwargs)*coeff')]},
+    {'name': 'a block that overrides a shared condition arrives twice (whitebox3 A2)',
+     'expect': ('DATAFLOW.species-kwargs', ''),
+     'edits': [(R, '                state_quantity += \\\n                        _force_pass_arguments(method, **specie_kwargs)*coeff',
+                "                state_quantity += \\\n                    _force_pass_arguments(\n"
+                "                        method, **{k: v for k, v in kwargs.items() if 'kwargs' not in k},\n"
+                "                        **(kwargs.get('{}_kwargs'.format(specie.name)) or {}))*coeff")]},
 ]
 EQUIV = [
     {'name': 'delta written as -(initial - final)',
@@ -872,4 +1117,18 @@ EQUIV = [
                 "        initial_state = 'reactants'\n        final_state = 'products'\n",
                 "    end_states = ('reactants', 'products')\n    initial_state = end_states[bool(rev)]\n"
                 "    final_state = end_states[not rev]\n")]},
+    {'name': 'fast path for a coefficient of exactly 1 (whitebox3 B5)',
+     'edits': [(R, "            else:\n" + '                state_quantity += \\\n                        _force_pass_arguments(method, **specie_kwargs)*coeff',
+                "            elif coeff == 1:\n                state_quantity += \\\n"
+                "                    _force_pass_arguments(method, **specie_kwargs)\n"
+                "            else:\n" + '                state_quantity += \\\n                        _force_pass_arguments(method, **specie_kwargs)*coeff')]},
+    {'name': 'the power is skipped for a coefficient of exactly 1',
+     'edits': [(R, "                state_quantity *= \\\n                        _force_pass_arguments(method, **specie_kwargs)**coeff",
+                "                value = _force_pass_arguments(method, **specie_kwargs)\n"
+                "                state_quantity *= value if coeff == 1 else value**coeff")]},
+    {'name': 'Keq from the exponential of the difference of the two state values',
+     'edits': [(R, "        return np.exp(-self.get_delta_GoRT(rev=rev, act=act, **kwargs))",
+                "        initial_state, final_state = _get_states(rev=rev, act=act)\n"
+                "        return np.exp(self.get_GoRT_state(state=initial_state, **kwargs)\n"
+                "                      - self.get_GoRT_state(state=final_state, **kwargs))")]},
 ]
